@@ -1437,6 +1437,8 @@ class Node:
             del self.peer_sockets[conn.ident]
         if conn.ident in self._half_ready_connections:
             del self._half_ready_connections[conn.ident]
+        if self.socket_peers.get(conn.socket_fileno) is conn:
+            del self.socket_peers[conn.socket_fileno]
         peer = self._find_connection_peer(conn)
         if peer and peer.connection in (None, conn):
             # unset so that a new connection may be made later
